@@ -137,6 +137,15 @@ def run_c16(ctx):
     env.update({"HOME": root, "XSIM_CALLLOG": os.path.join(ctx.base, "child-calls.log"),
                 "TQDM_DISABLE": "1"})
     env.pop("SGE_TASK_ID", None)
+    # the first case of every batch is slow: with a real worker pool (num_workers)
+    # later cases of a batch then finish before it
+    slow_path = os.path.join(ctx.base, "slow-keys.json")
+    with interpose.real.open(slow_path, "w") as f:
+        import json as _json
+
+        _json.dump([[list(x) for x in calllog.key(kws[0])] for kws in batches.values()
+                    if len(kws) > 1], f)
+    env["XSIM_SLOW_KEYS"] = slow_path
     ctx.t("scenario", {"B": B, "per": per, "kind": kind, "state": state, "pre-grown": sorted(pre),
                        "explicit": explicit, "mode": mode})
 
